@@ -31,7 +31,7 @@ Classes == {"r_zero", "s_zero", "high_s_rej", "high_s_acc", "x_ge_n", "R_inf", "
             "reader_short_reads", "reader_fail_0", "reader_fail_mid", "reader_fail_31", "reader_err_with_last", "reader_ok",
             "same_triple", "entropy_one_byte_diff", "constant_entropy_diff_msg", "nil_rand", "wiped_import",
             "sample_first", "sample_after_zero", "sample_after_ge_n", "sample_exhausted", "sample_short", "sample_edge_accept",
-            "drbg_multi", "drbg_vector",
+            "drbg_multi", "drbg_vector", "drbg_long",
             "priv_ok", "priv_zero", "priv_ge_n", "priv_badlen", "pub_ok_unc", "pub_ok_cmp", "pub_identity", "pub_invalid",
             "pub_twist", "ecdh_ok", "ecdh_edge", "ecdh_repeat", "key_immutable", "after_scribble", "after_derive", "steered_u2", "near_miss_r", "sig_stable", "key_after_rejected_decode",
             "rec_v_ge4", "rec_hi_ok", "rec_hi_overflow", "rec_not_x", "rec_q_inf", "rec_rs_zero", "rec_ok", "rec_honest_other_v"}
@@ -204,8 +204,9 @@ Verdict(ev) ==
     [] ev.ev = "drbg.Read" ->
          LET x == HB(ev.x)  h1 == HB(ev.e)  k == Len(ev.outs)
              outs == DrbgOutputs(DrbgInit(x, h1), k) IN
-         << outs = VecB(ev.outs) /\ \A i \in 1..k : outs[i] = Candidate(x, h1, i),     \* deferred-update machine = RFC's eager loop
-            (IF k > 1 THEN {"drbg_multi"} ELSE {}) \cup (IF ev.vector THEN {"drbg_vector"} ELSE {}) >>
+         << outs = VecB(ev.outs) /\ \A i \in (1..k) \cap ((1..6) \cup {k}) : outs[i] = Candidate(x, h1, i),     \* deferred-update machine = RFC's eager loop
+            (IF k > 1 THEN {"drbg_multi"} ELSE {}) \cup (IF ev.vector THEN {"drbg_vector"} ELSE {})
+            \cup (IF k > 256 THEN {"drbg_long"} ELSE {}) >>      \* (long runs: every output against the machine, the first six and the last against the eager loop)
     (* ---------------- C10 ---------------- *)
     [] ev.ev = "key.Private" ->
          LET b == HB(ev["in"])  v == IF Len(b) = W THEN OS2IP(b) ELSE 0
